@@ -441,7 +441,7 @@ Section Refinement.
   Qed.
 
   Lemma handler_on_empty d : handler d IndexError = on_empty d.
-  Proof. destruct d; reflexivity. Qed.
+  Proof. destruct d as [[t|v]|]; reflexivity. Qed.
 
   Lemma empty_pq_empty_spec st s : Inv st s -> elems (q_pq bk st) = [] -> s = [].
   Proof.
@@ -482,7 +482,7 @@ Section Refinement.
     rewrite C. pose proof (Inv_swap_pq st s b' I W' ND' Sub Live) as I'.
     destruct Out as [[-> E]|[-> (e & b2 & t & HL)]].
     - pose proof (empty_pq_empty_spec _ _ I' E) as Es. subst s. simpl.
-      split; [destruct d; reflexivity | exact I'].
+      split; [destruct d as [[t0|v0]|]; reflexivity | exact I'].
     - destruct (head_is_best _ _ e b2 t I' HL) as [Hb _].
       destruct HL as (F & P & W2 & Pm & Hmin & T). rewrite F, T. simpl. rewrite Hb. simpl.
       split; [reflexivity|exact I'].
@@ -533,7 +533,7 @@ Section Refinement.
     rewrite C. pose proof (Inv_swap_pq st s b' I W' ND' Sub Live) as I'.
     destruct Out as [[-> E]|[-> (e & b2 & t & HL)]].
     - pose proof (empty_pq_empty_spec _ _ I' E) as Es. subst s. simpl.
-      split; [destruct d; reflexivity | exact I'].
+      split; [destruct d as [[t0|v0]|]; reflexivity | exact I'].
     - destruct (head_is_best _ _ e b2 t I' HL) as [Hb Hin].
       pose proof (pop_present _ _ e b2 t I' HL) as I2.
       destruct HL as (F & P & W2 & Pm & Hmin & T). rewrite P, T. simpl in Hin.
